@@ -25,6 +25,38 @@ ENZYME_METHODS = {
 }
 
 
+SAFE_BUILTINS = {"ord": ord, "chr": chr, "zip": zip, "dict": dict, "str": str, "len": len, "range": range, "enumerate": enumerate,
+                 "tuple": tuple, "list": list, "sorted": sorted, "reversed": reversed, "set": set, "frozenset": frozenset, "min": min, "max": max}
+
+
+def closed_const_eval(node: ast.expr):
+    """Evaluate a *closed* constant expression (literals, comprehensions over
+    literals, pure builtins such as ord/zip, str methods on literals): plain
+    constant folding of a module-level table.  Returns (ok, value)."""
+    bound = set()
+    for n in ast.walk(node):
+        if isinstance(n, ast.comprehension):
+            for t in ast.walk(n.target):
+                if isinstance(t, ast.Name):
+                    bound.add(t.id)
+    for n in ast.walk(node):
+        if isinstance(n, ast.Name):
+            if n.id not in bound and n.id not in SAFE_BUILTINS and n.id not in ("True", "False", "None"):
+                return False, None
+        elif isinstance(n, ast.Attribute):
+            if n.attr.startswith("_") or n.attr not in ("upper", "lower", "join", "format", "replace", "translate", "maketrans", "items", "keys", "values", "strip", "split"):
+                return False, None
+        elif isinstance(n, (ast.Lambda, ast.Await, ast.Yield, ast.YieldFrom, ast.NamedExpr, ast.Starred)):
+            return False, None
+        elif isinstance(n, ast.Call) and n.keywords and any(k.arg is None for k in n.keywords):
+            return False, None
+    try:
+        code = compile(ast.Expression(body=node), "<constant>", "eval")
+        return True, eval(code, {"__builtins__": {}}, dict(SAFE_BUILTINS))
+    except Exception:
+        return False, None
+
+
 class Raises(Exception):
     """The folded function raises this exception class."""
 
@@ -224,6 +256,9 @@ class _Frame(object):
     def expr(self, e: ast.expr):
         meth = getattr(self, "e_" + type(e).__name__, None)
         if meth is None:
+            ok, v = closed_const_eval(e)
+            if ok:
+                return v
             self.unsupported(e, "expression")
         return meth(e)
 
@@ -288,6 +323,9 @@ class _Frame(object):
             self.unsupported(node, "external name %s" % d)
         if isinstance(r, tuple) and r and r[0] == "assign":
             _, mod, val = r
+            ok, v = closed_const_eval(val)
+            if ok:
+                return v
             fr = _Frame(self.f, mod, {}, None, None)
             return fr.expr(val)
         self.unsupported(node, "name")
@@ -316,7 +354,7 @@ class _Frame(object):
                 return _Bound("enzyme", base, a)
             self.unsupported(e, "enzyme attribute")
         if isinstance(base, str):
-            if a in ("replace", "format", "join", "upper", "lower", "strip"):
+            if a in ("replace", "format", "join", "upper", "lower", "strip", "translate"):
                 return _Bound("str", base, a)
             self.unsupported(e, "str method")
         if isinstance(base, SeqVal):
@@ -399,6 +437,8 @@ class _Frame(object):
             lo = self.expr(e.slice.lower) if e.slice.lower else None
             hi = self.expr(e.slice.upper) if e.slice.upper else None
             st = self.expr(e.slice.step) if e.slice.step else None
+            if not all(isinstance(x, (int, type(None))) for x in (lo, hi, st)):
+                self.unsupported(e, "slice bounds")
             return base[lo:hi:st]
         idx = self.expr(e.slice)
         if isinstance(base, (str, tuple, list)) and isinstance(idx, int):
@@ -463,6 +503,8 @@ class _Frame(object):
                 return s.join(self._str(x, e) if not isinstance(x, str) else x for x in args[0])
             if fn.name in ("upper", "lower", "strip") and not args:
                 return getattr(s, fn.name)()
+            if fn.name == "translate" and len(args) == 1 and isinstance(args[0], dict) and not kwargs:
+                return s.translate(args[0])
             self.unsupported(e, "str method")
         if fn.kind == "seq":
             if args or kwargs:
